@@ -174,6 +174,7 @@ func (ab *AccessBarrier) Acquire() *BarrierSession {
 		verifYield(VerifPtAcqLoaded)
 		liveCount := atomic.AddInt32(bs.liveCount, 1)
 		if liveCount > barrierFlushOffset {
+			verifYield(VerifPtAcqBackoff)
 			ab.Release(bs)
 			goto retry
 		}
